@@ -134,6 +134,23 @@ class TableFacts(object):
                                 name = v
                             elif t.attr == "status":
                                 status = v
+            if (name is None or status is None) and init is not None:
+                # delegation: super().__init__(NAME, STATUS, ...) / ExecutionEvent.__init__(self, ..)
+                for node in ast.walk(init.node):
+                    if isinstance(node, ast.Call) and isinstance(node.func, ast.Attribute) and \
+                            node.func.attr == "__init__":
+                        args = list(node.args)
+                        if args and isinstance(args[0], ast.Name) and args[0].id == "self":
+                            args = args[1:]
+                        kws = {k.arg: k.value for k in node.keywords}
+                        try:
+                            if len(args) >= 2:
+                                name, status = self.prog.fold(args[0], evm), self.prog.fold(args[1], evm)
+                            elif "name" in kws and "status" in kws:
+                                name = self.prog.fold(kws["name"], evm)
+                                status = self.prog.fold(kws["status"], evm)
+                        except NotFoldable:
+                            pass
             if name is None or status is None:
                 raise AnalysisError("cannot read name/status of engine event class %s" % ref)
             out[cmd] = (name, status)
@@ -265,6 +282,17 @@ class Atomizer(object):
     def _pred_set(self, var, body):
         """Status set accepted by a lambda body over one status variable."""
         allst = frozenset(self.facts.ALL)
+        if isinstance(body, ast.BoolOp):
+            parts = [self._pred_set(var, v) for v in body.values]
+            if any(p is None for p in parts):
+                return None
+            out = parts[0]
+            for p in parts[1:]:
+                out = (out | p) if isinstance(body.op, ast.Or) else (out & p)
+            return out
+        if isinstance(body, ast.UnaryOp) and isinstance(body.op, ast.Not):
+            inner = self._pred_set(var, body.operand)
+            return None if inner is None else allst - inner
         if isinstance(body, ast.Compare) and len(body.ops) == 1 and isinstance(
                 body.left, ast.Name) and body.left.id == var:
             try:
